@@ -127,6 +127,20 @@ GNextTxnWake ==
                 Poll(s, 0) /\ lim' = [lim EXCEPT ![s] = [i \in DOMAIN lim[s] |-> [lim[s][i] EXCEPT !.seen = TRUE]]]
 GSpecTxnWake == GInit /\ [][GNextTxnWake]_gvars
 
+(* one transaction as a COMPLETE tree: begin, every sequence of Depth - 3 body calls over a small alphabet, commit, poll *)
+(* (batched adapters process the whole batch in one go and may keep state between its diffs)                         *)
+TxnTreeOp ==
+    \/ PushBack("t", fresh) \/ PushFront("t", fresh) \/ PopFront("t")
+    \/ \E i \in {0, 1} : SetAt("t", i, fresh, "Set")
+    \/ RemoveIdx("t", 0, "Remove") \/ Insert("t", 1, fresh)
+GNextTxnTree ==
+    IF Len(hist) = 1 THEN TxnBegin /\ UNCHANGED <<pipes, lim>>
+    ELSE IF Len(hist) <= Depth - 2 THEN TxnTreeOp /\ UNCHANGED <<pipes, lim>>
+    ELSE IF txn.open THEN TxnCommit /\ UNCHANGED <<pipes, lim>>
+    ELSE (\E s \in 1..Len(pipes) :
+            Poll(s, 0) /\ lim' = [lim EXCEPT ![s] = [i \in DOMAIN lim[s] |-> [lim[s][i] EXCEPT !.seen = TRUE]]]) /\ UNCHANGED pipes
+GSpecTxnTree == GInit /\ [][GNextTxnTree]_gvars
+
 (* a compact core of operations for COMPLETE trees (every path): adapters keep internal state the    *)
 (* generator knows nothing about (parked diffs, index tables), so one behaviour per transition is not *)
 (* enough; every path of a small depth over this core is.                                           *)
